@@ -248,6 +248,12 @@ class Arr(object):
     def __init__(self, data):
         self.d = data
 
+    def __iter__(self):
+        return iter([Arr(r) if isinstance(r, list) else r for r in self.d])
+
+    def __len__(self):
+        return len(self.d)
+
     @property
     def ndim(self):
         return 2 if self.d and isinstance(self.d[0], list) else 1
